@@ -43,7 +43,7 @@ Theorem C14_high_water : forall c disk conv len p iv strict evs,
   let s0 := st_init (op_init false disk conv len [] p iv strict) in
   run_ok c s0 evs = true ->
   Forall (fun k => zlen (cbytes k) <= p_high p) (s_calls (run c s0 evs)).
-Proof. intros. now apply read_conservation_high_water. Qed.
+Proof. exact high_water. Qed.
 Print Assumptions C14_high_water.
 
 (* the channel setters keep 0 <= low <= high, 1 <= high (hypothesis read_params_ok of the theorems above) *)
